@@ -71,11 +71,12 @@ def structural(root, url):
                 if not re.match(r'^(-1|\d+)$', v):
                     out.append('S@r="%s" is not an integer >= -1' % v[:40])
             if an in ('media', 'initialization', 'index') and name in ('SegmentTemplate',):
-                path = v.split('?')[0]
-                for m in re.finditer(r'\$([^$]*)\$', path):
+                qpos = v.find('?')
+                for m in re.finditer(r'\$([^$]*)\$', v):
                     ident = re.sub(r'%0\d+d$', '', m.group(1))
                     if ident not in TEMPLATE_IDS:
-                        out.append('%s@%s uses the identifier $%s$' % (name, an, m.group(1)[:30]))
+                        where = 'query' if 0 <= qpos < m.start() else 'path'
+                        out.append('%s@%s uses the identifier $%s$ in its %s' % (name, an, m.group(1)[:30], where))
     pids = [p.get('id') for p in root if local(p.tag) == 'Period' and p.get('id') is not None]
     if len(pids) != len(set(pids)):
         out.append('Period ids are not unique: %s' % pids)
@@ -157,7 +158,7 @@ def check_doc(ctx, url, data, placement, inp, want_patch=False):
     if local(root.tag) == 'MPD':
         probs = structural(root, url)
         for p in probs[:3]:
-            ctx.violation('%s [%s]: %s' % (url, placement, p), inp, key=None)
+            ctx.violation('%s [%s]: %s' % (url, placement, p), inp, key='template-identifier-in-query' if p.endswith('in its query') else None)
     return root
 
 
@@ -170,16 +171,19 @@ def manifest_suite(ctx, env):
     string_opts = ['acodec', 'ad_audio', 'main_audio', 'main_text', 'tcodec', 'tlang', 'time_value', 'ping__value', 'scte35__value',
                    'playready__la_url', 'clearkey__la_url', 'marlin__la_url', 'ntp_servers', 'player', 'bugs', 'events', 'vcorrupt']
     base_q = ['', 'drm=all', 'drm=playready&playready__version=4.0', 'events=ping,scte35', 'time=xsd', 'time=direct', 'time=ntp', 'timeline=1',
-              'patch=1', 'base=1', 'abr=0', 'drm=clearkey&events=ping&time=http-ntp', 'depth=20&mup=4', 'start=epoch', 'leeway=0']
+              'patch=1', 'base=1', 'abr=0', 'drm=clearkey&events=ping&time=http-ntp', 'depth=20&mup=4', 'start=epoch', 'leeway=0',
+              'mup=-1', 'mup=0', 'patch=1&mup=-1', 'depth=600', 'depth=0', 'start=2030-01-01T00:00:00Z', 'start=now', 'start=today&depth=7200',
+              'drift=30', 'ping__value=$Foo$&events=ping', 'timeline=1&depth=300']
     c = env.client()
     n_each = 3 if ctx.quick() else 24
     with Clock(utc(2024, 3, 5, 12, 0, 7)):
         for tmpl in templates:
             for mode in ('vod', 'live'):
-                for kind in ('single', 'mps'):
+                for kind in ('single', 'mps', 'mps1p'):
                     for k in range(n_each):
                         hostile = rng.choice(HOSTILE)
-                        place = rng.choice(['title', 'query', 'host', 'la_url', 'none'] if kind == 'single' else ['mps', 'query', 'host', 'none'])
+                        place = rng.choice(['title', 'query', 'host', 'la_url', 'none'] if kind == 'single' else
+                                           ['mps', 'query', 'host', 'none'] if kind == 'mps' else ['query', 'none', 'none'])
                         q = [rng.choice(base_q)]
                         headers = {}
                         with env.app.app_context():
@@ -207,7 +211,7 @@ def manifest_suite(ctx, env):
                         elif place == 'host':
                             headers['Host'] = rng.choice(['exa"mple.com', 'a<b.example', "x'y", 'h&k', 'good.example:8080', 'a b'])
                         qs = '&'.join(x for x in q if x)
-                        base = '/dash/%s/bbb/%s' % (mode, tmpl) if kind == 'single' else '/mps/%s/mps1/%s' % (mode, tmpl)
+                        base = '/dash/%s/bbb/%s' % (mode, tmpl) if kind == 'single' else '/mps/%s/%s/%s' % (mode, 'mps1' if kind == 'mps' else 'solo', tmpl)
                         url = base + ('?' + qs if qs else '')
                         try:
                             r = c.get(url, headers=headers)
@@ -270,6 +274,7 @@ def run(ctx):
     env = AppEnv(ctx.workdir, streams=('bbb',))
     logging.disable(logging.CRITICAL)
     env.add_mps('mps1', [dict(pid='p1', stream='bbb', start_s=0, duration_s=20), dict(pid='p2', stream='bbb', start_s=8, duration_s=16)])
+    env.add_mps('solo', [dict(pid='only', stream='bbb', start_s=0, duration_s=12)])
     escape_corr(ctx, env)
     manifest_suite(ctx, env)
     env.close()
